@@ -107,3 +107,22 @@ func VfH_C09_varstore() {
 	store.GetDelta(VariationStoreIndex{DeltaSetOuter: vfU16("outer"), DeltaSetInner: vfU16("inner")}, coords)
 	vfReach("end")
 }
+
+// H-C09-cblc: the bitmap location table needs more than the 20 (40) bytes H-C09-parse explores: one strike
+// record (48 bytes) and its index subtable array. The counts are case-split (one strike, at most one index
+// subtable), every offset, glyph range and format field is arbitrary.
+func VfH_C09_cblc() {
+	lens := [...]int{56, 64, 72, 80, 88, 96}
+	nl := 3
+	if vfThorough() {
+		nl = 6
+	}
+	n := lens[vfChoice("len", nl)]
+	src := vfBytes("cblc", n, n)
+	vfAssume(src[4] == 0 && src[5] == 0 && src[6] == 0 && src[7] == 1)        // numSizes = 1
+	vfAssume(src[16] == 0 && src[17] == 0 && src[18] == 0 && src[19] <= 1) // numberOfIndexSubTables <= 1
+	_, _, err := ParseCBLC(src)
+	vfCover("accepted", err == nil)
+	vfCover("rejected", err != nil)
+	vfReach("end")
+}
